@@ -6,6 +6,7 @@ RepeatingEngine.restart, Engine._setExitReason, TransitionComponentToFinalState,
 ComponentState.finish, Engine.shutdown, engine.DLMESORestart.
 """
 import threading
+import datetime
 import types
 
 import experiment.model.codes as codes
@@ -102,16 +103,114 @@ def effective_max(wa):
     return m
 
 
-def body_engine(L, reasons=REASONS, narrow=False):
+_PIPE = {}
+
+
+def lifted_pipeline():
+    """The stage functions of the launch pipeline, lifted from the AST of the real Engine.run on every run: the nested
+    functions of run() compiled as closures over `self`, and the order in which run() maps them over the launch / wait
+    observables (InitPerformanceInfo, LaunchTask, SetLaunchTime | Wait, FinalisePerformanceInfo -> HandleTaskExit)."""
+    if 'make' in _PIPE:
+        return _PIPE
+    import ast
+    import inspect
+    import textwrap
+    fn = ast.parse(textwrap.dedent(inspect.getsource(engine_mod.Engine.run))).body[0]
+    defs = [n for n in fn.body if isinstance(n, ast.FunctionDef)]
+    names = {d.name for d in defs}
+    groups = []
+    for st in fn.body:
+        maps = sorted(((c.lineno, c.col_offset, c.args[0].id) for c in ast.walk(st)
+                       if isinstance(c, ast.Call) and isinstance(c.func, ast.Attribute) and c.func.attr == 'map'
+                       and c.args and isinstance(c.args[0], ast.Name) and c.args[0].id in names))
+        if maps and not isinstance(st, ast.FunctionDef):
+            groups.append([m[2] for m in maps])
+    if len(groups) < 2 or 'LaunchTask' not in groups[0] or 'Wait' not in groups[1] or 'HandleTaskExit' not in names:
+        raise RuntimeError('cannot lift the launch pipeline of Engine.run (its structure changed): %r' % groups)
+    wrapper = ast.FunctionDef(name='_stages', args=ast.arguments(posonlyargs=[], args=[ast.arg(arg='self')], kwonlyargs=[], kw_defaults=[],
+                                                                 defaults=[]),
+                              body=defs + [ast.Return(value=ast.Call(func=ast.Name(id='locals', ctx=ast.Load()), args=[], keywords=[]))],
+                              decorator_list=[], type_params=[])
+    mod = ast.Module(body=[wrapper], type_ignores=[])
+    ast.fix_missing_locations(mod)
+    ns = {}
+    exec(compile(mod, '<Engine.run stages>', 'exec'), vars(engine_mod), ns)
+    _PIPE.update(make=ns['_stages'], launch=groups[0], wait=groups[1])
+    return _PIPE
+
+
+class _PerfMatrix(object):
+    def addElements(self, *a, **k): pass
+    def removeRows(self, *a, **k): pass
+    def setElements(self, *a, **k): pass
+    def csvRepresentation(self): return ''
+
+
+class PEngine(HEngine):
+    """HEngine whose run() and task exit go through the real stage functions of Engine.run (lifted), so that whatever those
+    stages do to the restart / resubmission book-keeping is on the path.  `launcher(engine)` returns the task or raises."""
+
+    def __init__(self, job, launcher):
+        HEngine.__init__(self, job)
+        self.performanceHeaders = []
+        self.performanceMatrix = _PerfMatrix()
+        self.taskGenerator = lambda j: launcher(self)
+        self._emission = None
+        self._taskLaunched = None
+        self._taskFinished = None
+        if not hasattr(job, 'workingDirectory'):
+            job.workingDirectory = types.SimpleNamespace(path='/nonexistent/verif/wd')
+
+    def compute_task_events(self, process):
+        return {}
+
+    def run(self, startObservable=None):
+        HEngine.run(self, startObservable)
+        pipe = lifted_pipeline()
+        st = pipe['make'](self)
+        em = None
+        for name in pipe['launch']:
+            em = st[name](em)
+        if self._taskLaunched is not None and em.get('process') is not None:
+            self._taskLaunched -= datetime.timedelta(seconds=1)     # a non-zero run time for the performance columns
+        self._emission = em
+
+    def task_exits(self, reason=None):
+        """The launched task exits with `reason` (or the launch itself had failed: reason comes from the emission)."""
+        pipe = lifted_pipeline()
+        st = pipe['make'](self)
+        em = self._emission
+        if em.get('process') is not None:
+            em['process'].exitReason = reason
+            em['process'].returncode = 0 if reason == 'Success' else 1
+        for name in pipe['wait']:
+            em = st[name](em)
+        st['HandleTaskExit'](em)
+        return self.exitReason()
+
+
+def body_engine(L, reasons=REASONS, narrow=False, launch_failures=False):
     def body(ctx):
         job = LazyJob(0, 'A')
         job._ctx = ctx
         job.customAttributes = LazyCustom(ctx)
         wa, rho, sdo = make_policy(ctx, job)
         if narrow:
-            wa.lazy['maxRestarts'] = lambda: ctx.choice('maxRestarts', [None, -1, 1])
-            wa.lazy['restartHookFile'] = lambda: ctx.choice('restartHookFile', [None, ''])
-        eng = HEngine(job)
+            wa.lazy['maxRestarts'] = lambda: ctx.choice('maxRestarts', [None, -1, 1] if not launch_failures else [None, 1])
+            wa.lazy['restartHookFile'] = lambda: ctx.choice('restartHookFile', [None, ''] if not launch_failures else [None])
+        launches = []
+
+        def launcher(e):
+            # the backend accepts the task, or the submission itself fails (the two ways a SubmissionFailed comes about)
+            # (the two exceptions take different except-branches of LaunchTask: they alternate by launch index to keep the tree small)
+            how = ctx.choice('launch%d' % len(launches), ['task', 'JobLaunchError' if len(launches) % 2 == 0 else 'OSError'] if launch_failures else ['task'])
+            launches.append(how)
+            if how == 'JobLaunchError':
+                raise _launch_error()
+            if how == 'OSError':
+                raise OSError('stub: file system inconsistency')
+            return _StubProc(None)
+        eng = PEngine(job, launcher)
         comp = HComp(job, eng)
         ctl = new_controller()
         hook_calls = []
@@ -147,17 +246,26 @@ def body_engine(L, reasons=REASONS, narrow=False):
             for step in range(L):
                 if not eng.isAlive():
                     break
-                r = ctx.choice('exit%d' % step, list(reasons) + ['Killed-before-launch'])
-                tracker.new_step()
-                if r == 'Killed-before-launch':
-                    # kill() arrives after run()/restart() returned but before the task is launched: the launch
-                    # pipeline ends in HandleTaskObservableException -> _setExitReason(Killed); engine.process is
-                    # whatever restart() left behind
-                    r = 'Killed'
-                    eng._setExitReason('Killed')
+                if launches and launches[-1] != 'task':
+                    # the submission itself failed: LaunchTask reported SubmissionFailed, there is no task to wait for
+                    r = 'SubmissionFailed'
+                    tracker.new_step()
+                    got = eng.task_exits()
+                    ctx.check(got == 'SubmissionFailed', 'a launch that raises is reported as SubmissionFailed', (launches, got))
+                    ctx.witness('submission_failed_at_launch')
                 else:
-                    eng.process = _StubProc(r)      # the launched task, as LaunchTask would have stored it
-                    eng._setExitReason(r)
+                    r = ctx.choice('exit%d' % step, list(reasons) + ['Killed-before-launch'])
+                    tracker.new_step()
+                    if r == 'Killed-before-launch':
+                        # kill() arrives after run()/restart() returned but before the task is launched: the launch
+                        # pipeline ends in HandleTaskObservableException -> _setExitReason(Killed); engine.process is
+                        # whatever restart() left behind
+                        r = 'Killed'
+                        eng._setExitReason('Killed')
+                    else:
+                        # the launched task (stored by the real LaunchTask stage) exits: Wait, FinalisePerformanceInfo,
+                        # HandleTaskExit of the real pipeline
+                        eng.task_exits(r)
                 ctx.check(eng.exitReason() == r, 'the engine reports the exit reason of its last execution', (hist, r, eng.exitReason()))
                 before = eng.run_calls
                 ctl.postMortemCheck(comp.state, comp)
@@ -327,7 +435,17 @@ class UnstableFor(object):
         pass
 
 
+def _launch_error():
+    import experiment.runtime.errors as rterr
+    try:
+        return rterr.JobLaunchError('stub: backend refused the task', None)
+    except TypeError:
+        return rterr.JobLaunchError('stub: backend refused the task')
+
+
 class _StubProc(object):
+    status = None
+
     def __init__(self, reason):
         self.exitReason = reason
         self.returncode = 0 if reason == 'Success' else 1
@@ -438,7 +556,7 @@ def body_repeating(L):
 
 def factory(param):
     if param['kind'] == 'engine':
-        return body_engine(param['L'], param.get('reasons', REASONS), param.get('narrow', False))
+        return body_engine(param['L'], param.get('reasons', REASONS), param.get('narrow', False), param.get('launch_failures', False))
     if param['kind'] == 'step':
         return body_step()
     return body_repeating(param['L'])
@@ -476,18 +594,20 @@ def main(tier, seed, only=None):
     rep.explanation = ('bounded symbolic execution (symx/z3): exit reason of every execution, restart policy options, '
                        'hook outcomes and stability answers are solver variables; DFS over all feasible decision '
                        'vectors; every path re-validated natively')
-    rep.required_witnesses = ['step_restarted', 'step_refused', 'restarted', 'refused', 'budget_reached', 'five_resubmissions', 'rep_restarted',
+    rep.required_witnesses = ['step_restarted', 'step_refused', 'restarted', 'refused', 'budget_reached', 'five_resubmissions', 'submission_failed_at_launch', 'rep_restarted',
                               'rep_refused']
     SF = ['SubmissionFailed', 'Success', 'ResourceExhausted', 'Killed']
     params = [{'kind': 'step', 'name': 'step'},
               {'kind': 'repeating', 'L': 3, 'name': 'repeating'},
               {'kind': 'engine', 'L': L, 'reasons': REASONS, 'name': 'seq-all'},
-              {'kind': 'engine', 'L': L2, 'reasons': SF, 'narrow': True, 'name': 'seq-sf'}]
+              {'kind': 'engine', 'L': L2, 'reasons': SF, 'narrow': True, 'name': 'seq-sf'},
+              # every execution either gets a task (that exits with SubmissionFailed or Success) or fails to launch
+              {'kind': 'engine', 'L': L2, 'reasons': ['SubmissionFailed', 'Success'], 'narrow': True, 'launch_failures': True, 'name': 'seq-launch'}]
     if only:
         params = [p for p in params if p['name'] in only]
         rep.required_witnesses = []
     s = explore_parallel('restart-policy', factory, params, signature=signature, max_paths=max_paths, seed=seed,
-                         chunk=300)
+                         chunk=300, per_param_max=max_paths // 2)
     rep.add(s)
     return rep.finish()
 
